@@ -23,7 +23,7 @@ var Profiles = map[string]Profile{
 	// router labs (compile-safe per the acceptance survey, DESIGN Appendix L): C02 C03 C05 C12
 	"router": {Name: "router", MaxControllers: 3, MaxMethods: 5, MultiPkg: true, MultiFile: true, Hidden: true, ParamIn: allIn, ParamTypeLevel: 2,
 		Validators: true, RuntimeValidators: true, Models: 1, CustomErrors: true, Responses: false, RouteStyle: "clean", CtlRouteParams: true, VerbPathReuse: true,
-		WireNames: true, CtxParams: true, Security: false},
+		WireNames: true, CtxParams: true, Security: false, DashedWireNames: true},
 	// everything the spec emitters understand: C08, C11
 	"fullspec": {Name: "fullspec", MaxControllers: 3, MaxMethods: 6, MultiPkg: true, MultiFile: true, Hidden: true, Deprecated: true,
 		Security: true, DefaultSecP: 0.4, ParamIn: allIn, ParamTypeLevel: 2, Validators: true, FieldValidators: true, Models: 2,
